@@ -85,11 +85,14 @@ class PyTarget:
         self.nm = PythonNameManager()
 
     def lookup(self, op):
-        kind, name = op
+        kind, name = op[0], op[1]
         if kind == "var":
             return self.nm[name]
         if kind == "func":
             return self.nm.name_function(name)
+        if kind == "clear":
+            self.nm.clear_locals()        # a new phase function begins: local scope starts afresh
+            return None
         return None
 
     def legal(self, ident):
@@ -176,6 +179,10 @@ def run_sequence(target_cls, seq):
             return ("exception(%s)" % type(ex).__name__, "lookup %s raised %s: %s" % (op, type(ex).__name__, ex),
                     [op]), table, i
         if ident is None:
+            if op[0] == "clear":
+                # locals of the previous phase function are out of scope; globals and functions stay
+                for k in [k for k, v in table.items() if k[0] == "var" and not is_persistent(k[1])]:
+                    del table[k]
             continue
         if op in table:
             if table[op] != ident:
@@ -227,6 +234,10 @@ def shards(tier, seed):
         for first in range(nr):
             out.append({"target": tname, "mode": "reduced", "first": first, "k": k})
         out.append({"target": tname, "mode": "compile"})
+    # Python: locals of two consecutive phase functions (clear_locals between them)
+    nvar = len([o for o in pool(False) if o[0] == "var"])
+    for first in range(nvar):
+        out.append({"target": "python", "mode": "phases", "first": first})
     return out
 
 
@@ -234,6 +245,8 @@ def ops_for(tname, reduced):
     ops = pool(reduced)
     if tname == "fortran":
         ops = ops + FORTRAN_ONLY
+    else:
+        ops = ops + [("clear", "")]
     return ops
 
 
@@ -267,6 +280,8 @@ def run_shard(desc, acc):
     tcls = PyTarget if tname == "python" else FTarget
     if desc["mode"] == "compile":
         return run_compile_validation(desc, acc, tcls)
+    if desc["mode"] == "phases":
+        return run_phase_sequences(desc, acc, tcls)
     reduced = desc["mode"] == "reduced"
     ops = ops_for(tname, reduced)
     first = ops[desc["first"]]
@@ -299,6 +314,31 @@ def run_shard(desc, acc):
                 acc.sample({"target": tname, "lookups": [list(o) for o in seq],
                             "table": sorted((list(kk), v) for kk, v in table.items())})
     acc.states += len(states)
+
+
+def run_phase_sequences(desc, acc, tcls):
+    """(a; new phase; a, b) and (a; new phase; b, a) for every ordered pair of variable names"""
+    vops = [o for o in pool(False) if o[0] == "var"]
+    a = vops[desc["first"]]
+    reported = set()
+    for b in vops:
+        if b == a:
+            continue
+        for seq in ((a, ("clear", ""), a, b), (a, ("clear", ""), b, a), (a, b, ("clear", ""), b, a)):
+            acc.evaluations += 1
+            r, table, ntr = run_sequence(tcls, seq)
+            acc.transitions += ntr
+            acc.traces += 1
+            if r is not None:
+                sub, detail, culprits = r
+                sig = sig_of(sub, "python", culprits) + " after a new phase"
+                if sig not in reported:
+                    reported.add(sig)
+                    acc.violation(sub, sig, {"target": "python", "sequence": [list(o) for o in seq], "phases": True},
+                                  "%s\nsequence %s" % (detail, list(seq)))
+                continue
+            acc.nontrivial += 1
+            acc.states += 1
 
 
 def py_compiles(idents):
@@ -340,8 +380,12 @@ def run_compile_validation(desc, acc, tcls):
         idents = []
         try:
             for op in seq:
+                if op[0] == "clear":
+                    continue
                 idents.append(tgt.lookup(op))
         except Exception:
+            continue
+        if not idents:
             continue
         model_ok = all(tgt.legal(i) is None for i in idents) and \
             len({tgt.scope_key(None, i) for i in idents}) == len(idents)
@@ -367,5 +411,8 @@ def replay(witness):
     if r is None:
         return []
     sub, detail, culprits = r
+    if witness.get("phases"):
+        return [{"sub": sub, "sig": sig_of(sub, tname, culprits) + " after a new phase", "witness": witness,
+                 "detail": detail}]
     return [{"sub": sub, "sig": sig_of(sub, tname, culprits),
              "witness": {"target": tname, "sequence": [list(o) for o in culprits]}, "detail": detail}]
